@@ -7,6 +7,7 @@ from .. import calllog
 VAR_DESC = {
     "scalar": ({"var_names": "x"}, ["x"]),
     "int": ({"var_names": ["x"]}, ["x"]),
+    "holes": ({"var_names": "x"}, ["x"]),
     "tuple2": ({"var_names": ["x", "y"]}, ["x", "y"]),
     "array": ({"var_names": "x", "var_dims": {"x": ["t"]}, "var_coords": {"t": [0, 1, 2]}}, ["x"]),
     "scalar+array": ({"var_names": ["x", "z"], "var_dims": {"z": ["p", "q"]},
